@@ -220,7 +220,7 @@ fn c17_ptr_into_inner() {
     }
     reach!();
 }
-//@ob fn="static_reference!" at=src/reference.rs:384 clause="static_reference!: Ptr variant to a static holding the initial value; clones alias it; target alive after the original handle is dropped (static)"
+//@ob fn="static_reference!" at=src/reference.rs:437 clause="static_reference!: Ptr variant to a static holding the initial value; clones alias it; target alive after the original handle is dropped (static)"
 #[kani::proof]
 fn c17_static_reference_macro() {
     let r = static_reference!(P, P { a: 7, b: 9 });
@@ -332,7 +332,7 @@ macro_rules! lifetime_harness {
         }
     };
 }
-//@ob fn="rc_ref_cell_reference / Clone / Drop (RcRefCell)" at=src/reference.rs:372 clause="RcRefCell: target stays alive (no dead-object access, not destroyed) while any clone exists after the original is dropped; destroyed exactly once with the last clone"
+//@ob fn="rc_ref_cell_reference / Clone / Drop (RcRefCell)" at=src/reference.rs:425 clause="RcRefCell: target stays alive (no dead-object access, not destroyed) while any clone exists after the original is dropped; destroyed exactly once with the last clone"
 lifetime_harness!(c17_rc_lifetime, rc_ref_cell_reference);
 
 // ------------------------------------------------------------------ PtrRwLock
@@ -378,7 +378,7 @@ fn c17_ptr_rw_lock_into_inner() {
     }
     reach!();
 }
-//@ob fn="static_rw_lock_reference!" at=src/reference.rs:399 clause="static_rw_lock_reference!: PtrRwLock variant to a static lock holding the initial value; clones alias it; alive after the original handle is dropped"
+//@ob fn="static_rw_lock_reference!" at=src/reference.rs:452 clause="static_rw_lock_reference!: PtrRwLock variant to a static lock holding the initial value; clones alias it; alive after the original handle is dropped"
 #[kani::proof]
 fn c17_static_rw_lock_reference_macro() {
     let r = static_rw_lock_reference!(P, P { a: 7, b: 9 });
@@ -437,7 +437,7 @@ fn c17_ptr_mutex_into_inner() {
     }
     reach!();
 }
-//@ob fn="static_mutex_reference!" at=src/reference.rs:415 clause="static_mutex_reference!: PtrMutex variant to a static mutex holding the initial value; clones alias it; alive after the original handle is dropped"
+//@ob fn="static_mutex_reference!" at=src/reference.rs:468 clause="static_mutex_reference!: PtrMutex variant to a static mutex holding the initial value; clones alias it; alive after the original handle is dropped"
 #[kani::proof]
 fn c17_static_mutex_reference_macro() {
     let r = static_mutex_reference!(P, P { a: 7, b: 9 });
@@ -504,7 +504,7 @@ fn c17_arc_rw_lock_count_into_inner() {
     assert!(*keep.read().unwrap() == v0);
     reach!();
 }
-//@ob fn="arc_rw_lock_reference / Clone / Drop (ArcRwLock)" at=src/reference.rs:425 clause="ArcRwLock: target stays alive (no dead-object access, not destroyed) while any clone exists after the original is dropped; destroyed exactly once with the last clone"
+//@ob fn="arc_rw_lock_reference / Clone / Drop (ArcRwLock)" at=src/reference.rs:478 clause="ArcRwLock: target stays alive (no dead-object access, not destroyed) while any clone exists after the original is dropped; destroyed exactly once with the last clone"
 lifetime_harness!(c17_arc_rw_lock_lifetime, arc_rw_lock_reference);
 
 // ------------------------------------------------------------------ ArcMutex
@@ -558,13 +558,15 @@ fn c17_arc_mutex_count_into_inner() {
     assert!(*keep.lock().unwrap() == v0);
     reach!();
 }
-//@ob fn="arc_mutex_reference / Clone / Drop (ArcMutex)" at=src/reference.rs:434 clause="ArcMutex: target stays alive (no dead-object access, not destroyed) while any clone exists after the original is dropped; destroyed exactly once with the last clone"
+//@ob fn="arc_mutex_reference / Clone / Drop (ArcMutex)" at=src/reference.rs:487 clause="ArcMutex: target stays alive (no dead-object access, not destroyed) while any clone exists after the original is dropped; destroyed exactly once with the last clone"
 lifetime_harness!(c17_arc_mutex_lifetime, arc_mutex_reference);
 
 // ------------------------------------------------------------------ to_dyn! expanded inside rrtk
-// Here `feature = "alloc"` / `feature = "std"` are rrtk's own features, so all three listed arms exist.  The
-// caller-crate dependence of those cfg tests (the defect of DESIGN section 6) can only be shown from another
-// crate: /verif/kani/ext/c17_todyn_downstream*.
+// Inside rrtk the three listed arms (Ptr, RcRefCell, PtrRwLock) exist with the default features.  That the
+// conversion does not depend on which features the CALLING crate declares (the defect of DESIGN section 6, fixed
+// in /repo by 8a9f062: the feature-dependent arms now live in helper macros selected by rrtk's own features)
+// can only be checked from another crate: /verif/kani/ext/c17_todyn_downstream (no features) and
+// /verif/kani/ext/c17_todyn_downstream_feat (features named alloc/std).
 trait Tr {
     fn read(&self) -> u32;
     fn write(&mut self, v: u32);
@@ -601,7 +603,7 @@ fn to_dyn_post(d: Reference<dyn Tr>, keep: Reference<S>, variant: u8, v0: u32) {
     d2.borrow_mut().write(z);
     assert!(keep.borrow().v == z);
 }
-//@ob fn="to_dyn! (Ptr arm)" at=src/reference.rs:352 clause="to_dyn! on Ptr does not panic; result is a Ptr Reference<dyn Tr> aliasing the source object"
+//@ob fn="to_dyn! (Ptr arm)" at=src/reference.rs:349 clause="to_dyn! on Ptr does not panic; result is a Ptr Reference<dyn Tr> aliasing the source object"
 #[kani::proof]
 fn c17_to_dyn_ptr() {
     let v0: u32 = kani::any();
@@ -612,7 +614,7 @@ fn c17_to_dyn_ptr() {
     to_dyn_post(d, keep, V_PTR, v0);
     reach!();
 }
-//@ob fn="to_dyn! (RcRefCell arm)" at=src/reference.rs:356 clause="to_dyn! on RcRefCell (expanded where feature alloc is visible) does not panic; result shares the allocation, strong count unchanged by the conversion"
+//@ob fn="to_dyn! / __to_dyn_alloc! (RcRefCell arm)" at=src/reference.rs:373 clause="to_dyn! on RcRefCell (expanded where feature alloc is visible) does not panic; result shares the allocation, strong count unchanged by the conversion"
 #[kani::proof]
 fn c17_to_dyn_rc() {
     let v0: u32 = kani::any();
@@ -627,7 +629,7 @@ fn c17_to_dyn_rc() {
     assert!(Rc::strong_count(&probe) == 1);
     reach!();
 }
-//@ob fn="to_dyn! (PtrRwLock arm)" at=src/reference.rs:360 clause="to_dyn! on PtrRwLock (expanded where feature std is visible) does not panic; result is a PtrRwLock Reference<dyn Tr> on the same lock"
+//@ob fn="to_dyn! / __to_dyn_std! (PtrRwLock arm)" at=src/reference.rs:401 clause="to_dyn! on PtrRwLock (expanded where feature std is visible) does not panic; result is a PtrRwLock Reference<dyn Tr> on the same lock"
 #[kani::proof]
 fn c17_to_dyn_ptr_rw_lock() {
     let v0: u32 = kani::any();
@@ -639,7 +641,7 @@ fn c17_to_dyn_ptr_rw_lock() {
     reach!();
 }
 // Variants the macro does not list: documented limitation (outside "every variant the macro lists"), recorded.
-//@ob fn="to_dyn! (no PtrMutex arm)" at=src/reference.rs:363 clause="to_dyn! on PtrMutex always reaches unimplemented!() (variant not listed by the macro: limitation, outside the claim)"
+//@ob fn="to_dyn! (no PtrMutex arm)" at=src/reference.rs:406 clause="to_dyn! on PtrMutex always reaches unimplemented!() (variant not listed by the macro: limitation, outside the claim)"
 #[kani::proof]
 #[kani::should_panic]
 fn c17_to_dyn_ptr_mutex_unlisted_panics() {
@@ -649,7 +651,7 @@ fn c17_to_dyn_ptr_mutex_unlisted_panics() {
     let _d: Reference<dyn Tr> = to_dyn!(Tr, r);
     kani::cover!(true, "unreach: returned normally");
 }
-//@ob fn="to_dyn! (no ArcRwLock arm)" at=src/reference.rs:363 clause="to_dyn! on ArcRwLock always reaches unimplemented!() (variant not listed by the macro: limitation, outside the claim)"
+//@ob fn="to_dyn! (no ArcRwLock arm)" at=src/reference.rs:406 clause="to_dyn! on ArcRwLock always reaches unimplemented!() (variant not listed by the macro: limitation, outside the claim)"
 #[kani::proof]
 #[kani::should_panic]
 fn c17_to_dyn_arc_rw_lock_unlisted_panics() {
@@ -658,7 +660,7 @@ fn c17_to_dyn_arc_rw_lock_unlisted_panics() {
     let _d: Reference<dyn Tr> = to_dyn!(Tr, r);
     kani::cover!(true, "unreach: returned normally");
 }
-//@ob fn="to_dyn! (no ArcMutex arm)" at=src/reference.rs:363 clause="to_dyn! on ArcMutex always reaches unimplemented!() (variant not listed by the macro: limitation, outside the claim)"
+//@ob fn="to_dyn! (no ArcMutex arm)" at=src/reference.rs:406 clause="to_dyn! on ArcMutex always reaches unimplemented!() (variant not listed by the macro: limitation, outside the claim)"
 #[kani::proof]
 #[kani::should_panic]
 fn c17_to_dyn_arc_mutex_unlisted_panics() {
